@@ -9,15 +9,15 @@ def gen(ctx):
     rng = ctx.rng
     big = ctx.tier != "quick"
     g = docgen.Gen(rng)
-    docs = [g.document()[0].encode() for _ in range(3000 if big else 500)]
+    docs = [g.document()[0].encode() for _ in range(10000 if big else 500)]
     corp = [d for _, d in corpus_files()]
     out = list(corp)
     pool = docs + corp
-    for _ in range(200000 if big else 9000):
+    for _ in range(800000 if big else 9000):
         out.append(docgen.mutate(rng, rng.choice(pool)))
     # tokens alone (value / key / key path / date-time entry points)
     toks = []
-    for _ in range(20000 if big else 2500):
+    for _ in range(80000 if big else 2500):
         c = rng.randrange(6)
         if c == 0:
             toks.append(g.value()[0].encode())
@@ -33,7 +33,7 @@ def gen(ctx):
             toks.append(docgen.mutate(rng, g.datetime()[0].encode()))
     out += toks
     # arbitrary bytes incl. invalid UTF-8, truncated multi-byte sequences, NUL and controls
-    for _ in range(40000 if big else 4000):
+    for _ in range(150000 if big else 4000):
         n = rng.choice([1, 2, 3, 4, 6, 10, 30])
         out.append(bytes(rng.choice([rng.randrange(256), rng.choice(b"a=\"'\n[]{}#\\.1 \r\t-:TZ"), rng.choice(b"\xc3\xe2\xf0\x80\xbf\xed\xf4\xff")]) for _ in range(n)))
     for ch in ["é", "€", "😀", "퟿", "\U0010ffff"]:
